@@ -1457,6 +1457,96 @@ Proof.
   assert (S1 : small (sb_block (c_auth (tk_container ex_tok0)))) by (vm_compute; reflexivity).
   assert (S2 : small (tk_serialize ex_tok0)) by (vm_compute; reflexivity).
   destruct (C07_build_inv xpub xsign _ _ _ _ _ _ _ table_wf_nil Hs B Wc I S1) as [Inv _].
-  assert (Sz : sized ex_tok0).
-  { apply (build_sized xpub xsign (repeat 1 32) [] None ex_ops0 (repeat 7 32) ex_tok0 []); try assumption.
-Abort.
+  assert (Sz : sized ex_tok0) by (unfold sized; vm_compute; repeat constructor).
+  split; [exact B|]. split; [exact table_wf_nil|]. split; [exact Hs|]. split; [exact Q|]. split; [exact Wc|].
+  split; [exact I|]. split; [exact S1|]. split; [exact S2|]. split; [exact Inv|]. split; [exact Sz|].
+  split.
+  - rewrite <- Q. change [] with (final_context ex_ops0) at 3.
+    apply (C07_build_decode xpub xsign _ _ _ _ _ _ _ table_wf_nil Hs B Wc I S1 S2).
+  - apply (C07_reload_accepts [] ex_tok0 Inv Sz S2).
+Qed.
+
+Example C07_append_nonvacuous :
+  bb_build (bb_exec (create_block ex_tok0) ex_ops1) = Ok (ex_blk1, snd (match bb_build (bb_exec (create_block ex_tok0) ex_ops1) with Ok r => r | _ => (ex_dummy_block, create_block ex_tok0) end)) /\
+  tk_append xpub xsign ex_tok0 ex_blk1 (repeat 9 32) = Ok (ex_tok1, []) /\
+  token_inv [] ex_tok0 /\ small_table (bb_syms (bb_exec (create_block ex_tok0) ex_ops1)) /\
+  supplied (tk_symbols ex_tok0) ex_ops1 = blk_one /\
+  token_inv [] ex_tok1 /\ resolve_token ex_tok1 = [blk_auth; blk_one] /\
+  independent_decode [] (tk_serialize ex_tok1) = Ok [(blk_auth, [], 3); (blk_one, [], 3)] /\
+  tk_unmarshal (tk_serialize ex_tok1) = Ok ex_tok1.
+Proof.
+  destruct C07_build_nonvacuous as (_ & _ & _ & _ & _ & _ & _ & _ & Inv & Sz & _ & _).
+  set (bb' := snd (match bb_build (bb_exec (create_block ex_tok0) ex_ops1) with Ok r => r | _ => (ex_dummy_block, create_block ex_tok0) end)).
+  assert (B : bb_build (bb_exec (create_block ex_tok0) ex_ops1) = Ok (ex_blk1, bb')) by (vm_compute; reflexivity).
+  assert (A : tk_append xpub xsign ex_tok0 ex_blk1 (repeat 9 32) = Ok (ex_tok1, [])) by (vm_compute; reflexivity).
+  assert (Hs : small_table (bb_syms (bb_exec (create_block ex_tok0) ex_ops1))) by (vm_compute; discriminate).
+  assert (Q : supplied (tk_symbols ex_tok0) ex_ops1 = blk_one) by (vm_compute; reflexivity).
+  assert (Wc : wf_block_c (supplied (tk_symbols ex_tok0) ex_ops1)) by (rewrite Q; wfc_tac).
+  assert (S1 : small (sb_block (last_sblock (tk_container ex_tok1)))) by (vm_compute; reflexivity).
+  assert (S2 : small (tk_serialize ex_tok1)) by (vm_compute; reflexivity).
+  destruct (C07_content_append xpub xsign [] ex_tok0 ex_ops1 ex_blk1 bb' _ ex_tok1 [] Inv Hs B A)
+    as (_ & _ & _ & R & _ & _ & K).
+  destruct (K Wc S1) as [Inv1 _].
+  assert (Sz1 : sized ex_tok1) by (unfold sized; vm_compute; repeat constructor).
+  assert (R0 : resolve_token ex_tok0 = [blk_auth]) by (vm_compute; reflexivity).
+  split; [exact B|]. split; [exact A|]. split; [exact Inv|]. split; [exact Hs|]. split; [exact Q|].
+  split; [exact Inv1|]. split; [rewrite R, R0, Q; reflexivity|]. split.
+  - rewrite (C07_append_decode xpub xsign [] ex_tok0 ex_ops1 ex_blk1 bb' _ ex_tok1 [] Inv Hs B A Wc S1 S2).
+    rewrite Q. vm_compute. reflexivity.
+  - apply (C07_reload_accepts [] ex_tok1 Inv1 Sz1 S2).
+Qed.
+
+(* Unmarshal's table is built with Extend (Insert de-duplicates): on a foreign
+   token whose second block re-declares a symbol of the first, the library's
+   table is shorter than the concatenation the published rule prescribes, and an
+   index of the second block means different strings to the two readers.  The
+   token is accepted (ErrMissingSymbols does not apply: 1025 is below the end). *)
+Definition ex_dup_auth : dblock :=
+  {| db_symbols := [[97]]; db_context := []; db_version := 3; db_facts := []; db_rules := []; db_checks := [] |}.
+Definition ex_dup_blk : dblock :=
+  {| db_symbols := [[97]; [98]]; db_context := []; db_version := 3;
+     db_facts := [{| dp_name := 1025; dp_terms := [] |}]; db_rules := []; db_checks := [] |}.
+Definition ex_dup_bytes : bytes :=
+  let eb b := match enc_block b with Ok x => x | _ => [] end in
+  enc_container {| c_rootid := None;
+                   c_auth := {| sb_block := eb ex_dup_auth; sb_alg := 0; sb_key := repeat 1 32; sb_sig := repeat 2 64 |};
+                   c_blocks := [{| sb_block := eb ex_dup_blk; sb_alg := 0; sb_key := repeat 3 32; sb_sig := repeat 4 64 |}];
+                   c_proof := PNextSecret (repeat 3 32) |}.
+Example unmarshal_redeclared_symbol_diverges :
+  match tk_unmarshal ex_dup_bytes with
+  | Ok t => tk_symbols t = [[97]; [98]] /\
+            map (fun b => map p_name (b_facts b)) (resolve_token t) = [[]; [[98]]]
+  | _ => False
+  end /\
+  match independent_decode [] ex_dup_bytes with
+  | Ok vs => map (fun v => map p_name (b_facts (fst (fst v)))) vs = [[]; [[97]]]
+  | _ => False
+  end.
+Proof. split; vm_compute; split; reflexivity || reflexivity. Qed.
+
+(* ------------------------------------------------------------------ *)
+Print Assumptions builder_content.
+Print Assumptions bbuilder_content.
+Print Assumptions independent_decode_inv.
+Print Assumptions C07_content_build.
+Print Assumptions C07_build_inv.
+Print Assumptions C07_build_decode.
+Print Assumptions C07_content_append.
+Print Assumptions C07_append_decode.
+Print Assumptions C07_seal_inv.
+Print Assumptions C07_reload.
+Print Assumptions C07_reload_observations.
+Print Assumptions C07_reload_accepts.
+Print Assumptions C07_unmarshal_closed.
+Print Assumptions C07_version_gate.
+Print Assumptions uclosed_no_capture.
+Print Assumptions C07_no_capture.
+Print Assumptions C07_append_keeps_meaning.
+Print Assumptions C08_frame.
+Print Assumptions hstep_bb_indep.
+Print Assumptions hrun_bb_proj.
+Print Assumptions C08_own_content.
+Print Assumptions C08_siblings.
+Print Assumptions C08_rebuild_refuted.
+Print Assumptions C07_build_nonvacuous.
+Print Assumptions C07_append_nonvacuous.
